@@ -293,7 +293,6 @@ fn body_char<S: Src, const H: usize, const STEPS: usize>(s: &mut S, w: Which) ->
 harness! {
     /// kind=bounded tier=quick bound="valid UTF-8 string<=4 bytes, &str delimiter<=2 bytes (empty included), every step until exhaustion (<=6 pieces)"
     #[kani::unwind(8)]
-    #[kani::stub(konst_kernel::string::non_char_boundary_panic, crate::hlib::stub_non_char_boundary_panic)]
     fn c06_split_str(s) {
         let f = body_str::<_, 4, 2, 7>(s, Which::Split);
         cov!(s, f.dl == 0 && f.hl == 4 && f.n == 4 && f.multibyte && f.steps == 4, "C06.cover.split_empty_delim_multibyte");
@@ -308,7 +307,6 @@ harness! {
 harness! {
     /// kind=bounded tier=quick bound="valid UTF-8 string<=4 bytes, &str delimiter<=2 bytes (empty included), every step until exhaustion (<=6 pieces)"
     #[kani::unwind(8)]
-    #[kani::stub(konst_kernel::string::non_char_boundary_panic, crate::hlib::stub_non_char_boundary_panic)]
     fn c06_rsplit_str(s) {
         let f = body_str::<_, 4, 2, 7>(s, Which::RSplit);
         cov!(s, f.dl == 0 && f.hl == 4 && f.n == 4 && f.multibyte && f.steps == 4, "C06.cover.rsplit_empty_delim_multibyte");
@@ -321,7 +319,6 @@ harness! {
 harness! {
     /// kind=bounded tier=quick bound="valid UTF-8 string<=4 bytes, &str delimiter<=2 bytes (empty included), every step until exhaustion (<=6 pieces)"
     #[kani::unwind(8)]
-    #[kani::stub(konst_kernel::string::non_char_boundary_panic, crate::hlib::stub_non_char_boundary_panic)]
     fn c06_split_terminator_str(s) {
         let f = body_str::<_, 4, 2, 7>(s, Which::SplitTerminator);
         cov!(s, f.dl == 0 && f.hl == 4 && f.multibyte && f.steps == f.n - 1, "C06.cover.split_terminator_empty_delim");
@@ -335,7 +332,6 @@ harness! {
 harness! {
     /// kind=bounded tier=quick bound="valid UTF-8 string<=4 bytes, &str delimiter<=2 bytes (empty included), every step until exhaustion (<=6 pieces)"
     #[kani::unwind(8)]
-    #[kani::stub(konst_kernel::string::non_char_boundary_panic, crate::hlib::stub_non_char_boundary_panic)]
     fn c06_rsplit_terminator_str(s) {
         let f = body_str::<_, 4, 2, 7>(s, Which::RSplitTerminator);
         cov!(s, f.dl == 0 && f.hl == 4 && f.multibyte && f.steps == f.n - 1, "C06.cover.rsplit_terminator_empty_delim");
@@ -348,7 +344,6 @@ harness! {
 harness! {
     /// kind=bounded tier=quick bound="valid UTF-8 string<=4 bytes, &str delimiter<=2 bytes (empty included); one next_back() and rev() of split, then every step until exhaustion"
     #[kani::unwind(8)]
-    #[kani::stub(konst_kernel::string::non_char_boundary_panic, crate::hlib::stub_non_char_boundary_panic)]
     fn c06_split_rev_str(s) {
         let f = body_str::<_, 4, 2, 7>(s, Which::SplitRev);
         cov!(s, f.dl == 1 && f.n == 3 && f.steps == 3 && f.multibyte, "C06.cover.split_rev_three_pieces");
@@ -359,7 +354,6 @@ harness! {
 harness! {
     /// kind=bounded tier=thorough bound="valid UTF-8 string<=4 bytes, &str delimiter<=2 bytes (empty included); one next_back() and rev() of rsplit, then every step until exhaustion"
     #[kani::unwind(8)]
-    #[kani::stub(konst_kernel::string::non_char_boundary_panic, crate::hlib::stub_non_char_boundary_panic)]
     fn c06_rsplit_rev_str(s) {
         let f = body_str::<_, 4, 2, 7>(s, Which::RSplitRev);
         cov!(s, f.dl == 1 && f.n == 3 && f.steps == 3 && f.multibyte, "C06.cover.rsplit_rev_three_pieces");
@@ -373,9 +367,8 @@ harness! {
 // delimiter whose continuation bytes keep matching).
 
 harness! {
-    /// kind=bounded tier=thorough bound="valid UTF-8 string<=4 bytes, char delimiter (any char), every step until exhaustion (<=5 pieces)"
+    /// kind=bounded tier=quick bound="valid UTF-8 string<=4 bytes, char delimiter (any char), every step until exhaustion (<=5 pieces)"
     #[kani::unwind(12)]
-    #[kani::stub(konst_kernel::string::non_char_boundary_panic, crate::hlib::stub_non_char_boundary_panic)]
     fn c06_split_char(s) {
         let f = body_char::<_, 4, 6>(s, Which::Split);
         cov!(s, f.dl == 2 && f.n == 3 && f.steps == 3 && f.hl == 4, "C06.cover.split_char2_three_pieces");
@@ -385,9 +378,8 @@ harness! {
 }
 
 harness! {
-    /// kind=bounded tier=thorough bound="valid UTF-8 string<=4 bytes, char delimiter (any char), every step until exhaustion (<=5 pieces)"
+    /// kind=bounded tier=quick bound="valid UTF-8 string<=4 bytes, char delimiter (any char), every step until exhaustion (<=5 pieces)"
     #[kani::unwind(12)]
-    #[kani::stub(konst_kernel::string::non_char_boundary_panic, crate::hlib::stub_non_char_boundary_panic)]
     fn c06_rsplit_char(s) {
         let f = body_char::<_, 4, 6>(s, Which::RSplit);
         cov!(s, f.dl == 2 && f.n == 3 && f.steps == 3 && f.hl == 4, "C06.cover.rsplit_char2_three_pieces");
@@ -396,9 +388,8 @@ harness! {
 }
 
 harness! {
-    /// kind=bounded tier=thorough bound="valid UTF-8 string<=4 bytes, char delimiter (any char), every step until exhaustion (<=5 pieces)"
+    /// kind=bounded tier=quick bound="valid UTF-8 string<=4 bytes, char delimiter (any char), every step until exhaustion (<=5 pieces)"
     #[kani::unwind(12)]
-    #[kani::stub(konst_kernel::string::non_char_boundary_panic, crate::hlib::stub_non_char_boundary_panic)]
     fn c06_split_terminator_char(s) {
         let f = body_char::<_, 4, 6>(s, Which::SplitTerminator);
         cov!(s, f.dl == 2 && f.trailing && f.n == 3 && f.steps == 2 && f.hl == 4, "C06.cover.split_terminator_char_drops_trailing_empty");
@@ -409,7 +400,6 @@ harness! {
 harness! {
     /// kind=bounded tier=thorough bound="valid UTF-8 string<=4 bytes, char delimiter (any char), every step until exhaustion (<=5 pieces)"
     #[kani::unwind(12)]
-    #[kani::stub(konst_kernel::string::non_char_boundary_panic, crate::hlib::stub_non_char_boundary_panic)]
     fn c06_rsplit_terminator_char(s) {
         let f = body_char::<_, 4, 6>(s, Which::RSplitTerminator);
         cov!(s, f.dl == 2 && f.leading && f.n == 3 && f.steps == 2 && f.hl == 4, "C06.cover.rsplit_terminator_char_drops_leading_empty");
@@ -420,7 +410,6 @@ harness! {
 harness! {
     /// kind=bounded tier=thorough bound="valid UTF-8 string<=4 bytes, char delimiter (any char); one next_back() and rev() of split, then every step until exhaustion"
     #[kani::unwind(12)]
-    #[kani::stub(konst_kernel::string::non_char_boundary_panic, crate::hlib::stub_non_char_boundary_panic)]
     fn c06_split_rev_char(s) {
         let f = body_char::<_, 4, 6>(s, Which::SplitRev);
         cov!(s, f.dl == 1 && f.n == 3 && f.steps == 3, "C06.cover.split_rev_char");
@@ -430,7 +419,6 @@ harness! {
 harness! {
     /// kind=bounded tier=thorough bound="valid UTF-8 string<=4 bytes, char delimiter (any char); one next_back() and rev() of rsplit, then every step until exhaustion"
     #[kani::unwind(12)]
-    #[kani::stub(konst_kernel::string::non_char_boundary_panic, crate::hlib::stub_non_char_boundary_panic)]
     fn c06_rsplit_rev_char(s) {
         let f = body_char::<_, 4, 6>(s, Which::RSplitRev);
         cov!(s, f.dl == 1 && f.n == 3 && f.steps == 3, "C06.cover.rsplit_rev_char");
@@ -444,7 +432,6 @@ harness! {
 harness! {
     /// kind=bounded tier=quick bound="valid UTF-8 string<=4 bytes, &str delimiter of exactly 3 bytes, every step until exhaustion (<=2 pieces)"
     #[kani::unwind(10)]
-    #[kani::stub(konst_kernel::string::non_char_boundary_panic, crate::hlib::stub_non_char_boundary_panic)]
     fn c06_split_str_delim3(s) {
         let hs = BStr::<4>::any(s);
         let ds = BStr::<3>::any(s);
@@ -457,9 +444,8 @@ harness! {
 }
 
 harness! {
-    /// kind=bounded tier=thorough bound="valid UTF-8 string<=4 bytes, &str delimiter of exactly 3 bytes, every step until exhaustion (<=2 pieces)"
+    /// kind=bounded tier=quick bound="valid UTF-8 string<=4 bytes, &str delimiter of exactly 3 bytes, every step until exhaustion (<=2 pieces)"
     #[kani::unwind(10)]
-    #[kani::stub(konst_kernel::string::non_char_boundary_panic, crate::hlib::stub_non_char_boundary_panic)]
     fn c06_rsplit_str_delim3(s) {
         let hs = BStr::<4>::any(s);
         let ds = BStr::<3>::any(s);
@@ -478,7 +464,6 @@ macro_rules! c06_str_big {
         harness! {
             /// kind=bounded tier=thorough bound="valid UTF-8 string<=5 bytes, &str delimiter<=3 bytes (empty included), every step until exhaustion (<=7 pieces)"
             #[kani::unwind(13)]
-            #[kani::stub(konst_kernel::string::non_char_boundary_panic, crate::hlib::stub_non_char_boundary_panic)]
             fn $name(s) {
                 let f = body_str::<_, 5, 3, 8>(s, $w);
                 cov!(s, f.dl == 3 && f.hl == 5 && f.n == 2 && f.steps >= 1, "C06.cover.big_delim3");
@@ -497,7 +482,6 @@ macro_rules! c06_char_big {
         harness! {
             /// kind=bounded tier=thorough bound="valid UTF-8 string<=5 bytes, char delimiter (any char), every step until exhaustion (<=6 pieces)"
             #[kani::unwind(14)]
-            #[kani::stub(konst_kernel::string::non_char_boundary_panic, crate::hlib::stub_non_char_boundary_panic)]
             fn $name(s) {
                 let f = body_char::<_, 5, 7>(s, $w);
                 cov!(s, f.dl == 2 && f.hl == 5 && f.n == 3 && f.steps >= 2, "C06.cover.big_char2");
